@@ -1320,6 +1320,17 @@ def c17_cases(tier, seed):
         keys += [rng.choice([".", "u", "p", "x"]), "Enter", "Enter"]
         chunks = [key_bytes(kk) for kk in keys]
         cases.append(Case(keys, mode="vi", timeout=0, prompt="> ", reads=2, chunks=chunks, cols=80, meta={}))
+    # a character of several bytes arriving in TWO writes with a window resize (SIGWINCH interrupts the blocked read) in between:
+    # the decoder carries on where it was
+    for i, ch in enumerate(["é", "日", "\U0001F600", "é"]):
+        b = ch.encode("utf-8")
+        cut = 1 + i % (len(b) - 1)
+        chunks = [b"a", b[:cut], b[cut:], b"z", b"\r", b"\r"]
+        keys = ["a", "<%s>" % b[:cut].hex(), "<%s>" % b[cut:].hex(), "z", "Enter", "Enter"]
+        mode = ["emacs", "vi"][i % 2]
+        cases.append(Case(keys, mode=mode, timeout=0 if mode == "vi" else "none", prompt="> ", reads=2, chunks=chunks, cols=80,
+                          meta={"events": {1: [("winch", 70)] + ([("winch", 60)] if i % 2 else [])},
+                                "expect_first": "R line:" + enc([0x61, ord(ch), 0x7a])}))
     # vi operators whose motion is a character search for a character of 2-4 bytes (typed text, then the operator)
     for op in ("d", "y", "c"):
         for cs in ("f", "t", "F", "T"):
